@@ -21,7 +21,8 @@ META = {
              'over a tiny universe of 21 operations: 2 types, names a/b, ids auto/0/1/-1, one reflexive and one ordinary '
              'association, 1 attacker) + random histories of length <= 60 over coreLang and generated languages with 20 % '
              'invalid arguments; non-trivial = history with >= 1 removal and >= 1 association; distinct = digest(history)'
-             '; added strata: refused re-add of an asset of the model, ids given as schema integers, entry points without steps, attackers prepared before their assets were added, association instances with an empty side, instances with 33-144 pairs and duplicate attempts against them'),
+             '; added strata: refused re-add of an asset of the model, ids given as schema integers, entry points without steps, attackers prepared before their assets were added, association instances with an empty side, instances with 33-144 pairs and duplicate attempts against them'
+             "; round 7: add_asset refused for an id of a wrong type (5.0, True, '5') followed by a valid add of the same id"),
     'assumptions': ['shadow semantics in mtv/shadow.py', 'the implementation may choose automatic ids and replacement names (S5)',
                     'linking removed/foreign assets and clashing attacker ids are outside the property and not generated'],
     'shards': {'quick': 8, 'thorough': 16},
